@@ -1146,7 +1146,48 @@ def check_problem_tables(ctx: Ctx) -> None:
     ctx.ob("11.1-problem-groups", cname(OP, "OptimizationProblem", "to_hdf"), ok, "the database must be added to the same file and node (append=True: the description just written must not be erased)", node=(dbw or [w])[0])
 
 
+def check_reload_order(ctx: Ctx) -> None:
+    """11.5: what the reader derives from the reloaded problem as a whole (the Pareto front of a multi-objective
+    solution is recomputed from history, constraints and tolerances) is derived once the problem is complete: no
+    statement that still fills the problem (constraints and observables appended, options set, objective bound) can
+    run after it."""
+    f = ctx.index.method(OP, "OptimizationProblem", "from_hdf")
+    con = cname(OP, "OptimizationProblem", "from_hdf")
+    cfg = cfg_of(f)
+    news = [s_ for s_ in stmts_of(f) if isinstance(s_, ast.Assign) and isinstance(s_.targets[0], ast.Name) and isinstance(s_.value, ast.Call) and dotted(s_.value.func) in ("cls", "OptimizationProblem")]
+    ctx.need(len(news) == 1, "from_hdf: the creation of the reloaded problem was not found")
+    pb = news[0].targets[0].id
+    consumers = [c for c in walk_body(f) if isinstance(c, ast.Call) and any(dotted(a_) == pb for a_ in c.args) and (last_attr(c) or "").startswith("from_")]
+    ctx.need(consumers, "from_hdf: no value derived from the whole reloaded problem found (ParetoFront.from_optimization_problem)")
+
+    def fills(st: ast.stmt) -> bool:
+        if isinstance(st, (ast.Assign, ast.AugAssign)):
+            tg = st.targets if isinstance(st, ast.Assign) else [st.target]
+            return any(isinstance(t, ast.Attribute) and (dotted(t) or "").startswith(pb + ".") and t.attr != "solution" for t in tg)
+        if isinstance(st, ast.Expr) and isinstance(st.value, ast.Call):
+            c = st.value
+            if dotted(c.func) == "setattr" and c.args and dotted(c.args[0]) == pb:
+                return True
+            if isinstance(c.func, ast.Attribute) and c.func.attr in ("append", "extend", "add_constraint", "add_observable", "set_pt_from_database"):
+                recv = c.func.value
+                if (dotted(recv) or "").startswith(pb + "."):
+                    return True
+                # a loop variable ranging over the problem's own lists: for name, functions in zip(.., [pb.constraints, ..])
+                for lp in stmts_of(f):
+                    if isinstance(lp, ast.For) and any(x is st for x in ast.walk(lp)) and isinstance(recv, ast.Name) and recv.id in names_in(lp.target) and any((dotted(x) or "").startswith(pb + ".") for x in ast.walk(lp.iter) if isinstance(x, ast.Attribute)):
+                        return True
+        return False
+
+    builders = [st for st in stmts_of(f) if fills(st)]
+    ctx.need(len(builders) >= 3, "from_hdf: the statements that fill the reloaded problem were not found")
+    for c in consumers:
+        cn = cfg.node_of(rules.enclosing_stmt(f, c))
+        late = [b for b in builders if cfg.has(b) and cfg.node_of(b) != cn and cfg.reachable(cn, cfg.node_of(b))]
+        ctx.ob("11.5-reload-order", con, not late, f"`{norm_stmt(c, 60)}` is computed from the reloaded problem while it is still being filled (`{norm_stmt(late[0], 60) if late else ''}` runs after it): the derived value does not see what is read later (constraints: the Pareto front then contains infeasible points)", node=c, stmt=f"{last_attr(c)}({pb}) after the problem is complete")
+
+
 def run(ctx: Ctx) -> None:
+    check_reload_order(ctx)
     check_database_tables(ctx)
     check_append(ctx)
     check_pending(ctx)
